@@ -5,6 +5,7 @@ package props
 import (
 	"bytes"
 	"fmt"
+	"runtime"
 	"sync"
 
 	"github.com/bytemare/secp256k1"
@@ -160,10 +161,11 @@ func h2cGenerate(c *mon.Ctx, fns []string, nq, nt int) {
 	for b := 0; b < c.N(8, 400); b++ {
 		cs := &h2cCase{Fn: fns[b%len(fns)], Layout: "exact", Class: "concurrent"}
 
-		for g := 0; g < 8; g++ {
-			dl := []int{20, 300, 255, 256, 700, 16, 300, 49}[g]
+		// more goroutines than cores, so that some are descheduled in the middle of a call
+		for g := 0; g < 40; g++ {
+			dl := []int{20, 300, 255, 256, 700, 16, 300, 49}[g%8]
 			if b%2 == 1 {
-				dl = []int{300, 300, 400, 400, 300, 256, 257, 1000}[g] // several different oversize DSTs at once
+				dl = []int{300, 300, 400, 400, 300, 256, 257, 1000}[g%8] // several different oversize DSTs at once
 			}
 
 			cs.Conc = append(cs.Conc, h2cPair{Msg: mon.H(rr.Bytes(5 + g)), Dst: mon.H(rr.Bytes(dl))})
@@ -310,10 +312,14 @@ func h2cRunHistory(c *mon.Ctx, cs *h2cCase) bool {
 				defer func() { j.pan = recover() }()
 				<-start
 
-				for rep := 0; rep < 20; rep++ {
+				for rep := 0; rep < 60; rep++ {
 					j.got = h2cCallBytes(cs.Fn, j.m, j.d)
 					if !bytes.Equal(j.got, j.want) {
 						return
+					}
+
+					if rep%7 == 3 {
+						runtime.Gosched()
 					}
 				}
 			}(j)
@@ -323,7 +329,7 @@ func h2cRunHistory(c *mon.Ctx, cs *h2cCase) bool {
 		wg.Wait()
 
 		for i, j := range jobs {
-			c.Eval(20)
+			c.Eval(60)
 
 			if j.pan != nil {
 				c.Fail(fmt.Sprintf("%s panicked when %d goroutines hashed simultaneously on their own buffers: %v", cs.Fn, len(jobs), j.pan), "h2c-concurrent-panic", nil)
@@ -379,7 +385,7 @@ func strictHex(s string) ([]byte, bool, bool) {
 	return out, true, upper
 }
 
-const concJobs = 8
+const concJobs = 16
 
 // concBatches submits n concurrent-batch cases built by mk (which receives the batch seed).
 func concBatches(c *mon.Ctx, n int, mk func(seed uint64) any) {
